@@ -64,7 +64,8 @@ def gen_hist(s):
         g = Gen(s, napps=napps, nsides=3, steps=120, p_illegal=0.02, names=[str(i) for i in range(1, 10)], body_prefix="same",
                 restarts=False, long_advances=False, max_conns=12)
     else:
-        g = Gen(s, napps=napps, nsides=3, steps=70, p_illegal=0.05, names=["1", "2", "7", "x"], body_prefix="same")
+        g = Gen(s, napps=napps, nsides=3, steps=70, p_illegal=0.08, names=["1", "2", "7", "x"], body_prefix="same",
+                empty_side=(s % 2 == 0))
     # identical bodies in all apps: the body counter is global, so make bodies collide on purpose
     h = g.gen()
     k = 0
